@@ -94,7 +94,7 @@ PREAMBLE = "From H2V Require Import Base.Tac Base.Bytes Model.Counts.\nLocal Ope
 
 
 def correspond_counts(rep, tier, seed, profiles=("queue", "limits", "pushlimit", "queue", "reset", "mixed", "chaos")):
-    per = 50 if tier == "quick" else 1200
+    per = 50 if tier == "quick" else 800
     steps = 100 if tier == "quick" else 150
     all_cases, all_scs, hist = [], [], {}
     for pi, prof in enumerate(profiles):
